@@ -147,6 +147,25 @@ struct SolveOutcome {
   bool have_basis = false;
 };
 
+// "Moderate bit-size" (C03's scope): every finite datum has magnitude within [1e-30, 1e30] and at most
+// 512 bits of numerator+denominator.  Beyond that, intermediate quantities (coefficient x bound,
+// multiplier x rhs) can pass the library's in-band infinity 1e150 and the floating-point stages may
+// legitimately be unable to classify the LP, which the exact driver reports as a non-definitive status.
+static bool moderate_num(const Q &v) {
+  if (v == 0 || !is_fin(v)) return true;
+  static const Q hi("1000000000000000000000000000000"), lo = Q(1) / hi;   // 1e30
+  Q a = abs(v);
+  if (a > hi || a < lo) return false;
+  return mpz_sizeinbase(v.get_num_mpz_t(), 2) + mpz_sizeinbase(v.get_den_mpz_t(), 2) <= 512;
+}
+static bool moderate(const Model &m) {
+  for (auto &c : m.cols) if (!moderate_num(c.obj) || !moderate_num(c.lo) || !moderate_num(c.up)) return false;
+  for (auto &r : m.rows) {
+    if (!moderate_num(r.rhs) || !moderate_num(r.range)) return false;
+    for (auto &kv : r.a) if (!moderate_num(kv.second)) return false;
+  }
+  return true;
+}
 static bool definitive(int st) { return st == QS_LP_OPTIMAL || st == QS_LP_INFEASIBLE || st == QS_LP_UNBOUNDED; }
 static const char *stname(int st) {
   switch (st) {
@@ -295,6 +314,9 @@ static void solve_run(const Case &c, Result &r, const char *prop) {
   QSbasis *warm = nullptr;
   SolveCfg lastcfg;
   bool nontrivial_opt = false, nontrivial_inf = false;
+  bool is_moderate = moderate(m);
+  bool nondefault_sticky = false;   // a pricing rule or an iteration limit has been set on this object (parameters persist)
+  if (!is_moderate) r.label("immoderate-data");
   for (; pos < c.ops.size() && r.verdict == PASS; pos++) {
     const Op &o = c.ops[pos];
     if (o.k == "warm") {
@@ -307,6 +329,10 @@ static void solve_run(const Case &c, Result &r, const char *prop) {
     if (o.k == "again") { cfg.entry = o.i.empty() ? 0 : (int)o.i[0] % 3; r.label("repeat-solve"); }
     lastcfg = cfg;
     if (cfg.entry != 0 && cfg.itlim == 0) cfg.itlim = std::max(2000, 50 * (m.n() + m.m()));   // exact Dantzig pricing may cycle
+    if (cfg.pprice != 0 || cfg.dprice != 0) nondefault_sticky = true;
+    // a non-default pricing rule may cycle in the mpf stages as well (Kuhn/Beale under Dantzig): cap the work
+    if (prop_s == "C04" && cfg.entry == 0 && nondefault_sticky && cfg.itlim == 0) cfg.itlim = std::max(2000, 50 * (m.n() + m.m()));
+    if (cfg.itlim != 0) nondefault_sticky = true;
     SolveOutcome so;
     QSbasis *B = nullptr;
     if (warm) { B = make_basis(std::string(warm->cstat, warm->nstruct), std::string(warm->rstat, warm->nrows)); }
@@ -339,11 +365,18 @@ static void solve_run(const Case &c, Result &r, const char *prop) {
     // ---- C03: the exact driver with default limits must deliver the truth
     if (prop_s == "C03" && cfg.entry == 0) {
       if (truth == T_UNKNOWN) { r.verdict = INCONCLUSIVE; r.msg = "reference could not certify the truth"; break; }
+      if (s.rval == 0 && !definitive(s.status) && !is_moderate) { r.verdict = DISCARD; r.label("discard:immoderate-nondefinitive"); break; }
       if (s.rval != 0 || !definitive(s.status)) { r.fail("nondefinitive:exact", strprintf("QSexact_solver returned rval=%d status=%s on a well-formed LP whose truth is %d", s.rval, stname(s.status), truth)); break; }
       if (s.status != truth_to_status(truth)) { r.fail("status-vs-truth:exact", strprintf("QSexact_solver says %s, the certified truth is %d", stname(s.status), truth)); break; }
     }
     // ---- C04: all definitive answers identical
     if (prop_s == "C04") {
+      // The statement compares definitive answers.  A non-definitive answer of the exact driver is judged
+      // only where C03 promises a definitive one: moderate data, default pricing, no iteration limit.
+      if (cfg.entry == 0 && s.rval == 0 && !definitive(s.status) && (!is_moderate || nondefault_sticky)) {
+        r.label(!is_moderate ? "exact:nondefinitive-immoderate" : "exact:nondefinitive-nondefault-config");
+        continue;
+      }
       if (cfg.entry == 0 && (s.rval != 0 || !definitive(s.status)) && truth != T_UNKNOWN) {
         r.fail("nondefinitive:exact", strprintf("QSexact_solver [%s] returned rval=%d status=%s", cfg.str().c_str(), s.rval, stname(s.status)));
         break;
